@@ -273,5 +273,5 @@ func main() {
 			_ = os.RemoveAll(base)
 		}
 	}()
-	sup.Main("find", &sup.Engine{Gen: findGen, Work: findWork, Recycle: 0, Timeout: 3 * time.Second})
+	sup.Main("find", &sup.Engine{Gen: findGen, Work: findWork, Recycle: 0, Timeout: 20 * time.Second})
 }
